@@ -155,6 +155,7 @@ fn main() {
         "C19" => { vh::c19::check(&rep); rep.finish(vh::c19::RULE, vh::c19::ASSUME, vh::c19::SITUATIONS) }
         "C18" => { vh::c18::check(&rep); rep.finish(vh::c18::RULE, vh::c18::ASSUME, vh::c18::SITUATIONS) }
         "C17" => { vh::c17::check(&rep); rep.finish(vh::c17::RULE, vh::c17::ASSUME, vh::c17::SITUATIONS) }
+        "C07" => { vh::c07::check(&rep); rep.finish(vh::c07::RULE, vh::c07::ASSUME, vh::c07::SITUATIONS) }
         _ => { eprintln!("unknown property {}", id); 2 }
     };
     std::process::exit(code);
